@@ -7,6 +7,7 @@ import (
 	"os"
 	"strconv"
 
+	"verifharness/instr"
 	"verifharness/mon"
 	"verifharness/spec"
 )
@@ -16,8 +17,10 @@ var checks = map[string]func(*mon.Ctx){
 	"C02": mon.CheckC02,
 	"C07": mon.CheckC07,
 	"C09": mon.CheckC09,
+	"C14": mon.CheckC14,
 	"C15": mon.CheckC15,
 	"C16": mon.CheckC16,
+	"C17": mon.CheckC17,
 	"C18": mon.CheckC18,
 	"C03": mon.CheckC03,
 	"C04": mon.CheckC04,
@@ -33,6 +36,19 @@ var checks = map[string]func(*mon.Ctx){
 func main() {
 	if len(os.Args) >= 3 && os.Args[1] == "--replay" {
 		mon.Replay(os.Args[2])
+		return
+	}
+	if len(os.Args) >= 4 && os.Args[1] == "instr" {
+		res, err := instr.Run(os.Args[2], os.Args[3])
+		if err != nil {
+			mon.Broken("instr: %v", err)
+		}
+		fmt.Printf("%d files, %d yield points\n", res.Files, res.Points)
+		return
+	}
+	if len(os.Args) >= 5 && os.Args[1] == "C14child" {
+		seed, _ := strconv.ParseInt(os.Args[3], 10, 64)
+		mon.C14Child(os.Args[4], os.Args[2], seed)
 		return
 	}
 	if len(os.Args) < 3 {
